@@ -165,6 +165,11 @@ func catalogue(n *chain.Node, ctx sdk.Context, w *world) []query {
 		add("/irismod.service.Query/Binding", &servicetypes.QueryBindingRequest{ServiceName: b.ServiceName, Provider: b.Provider}, "service binding "+b.ServiceName+"/"+b.Provider)
 		return false
 	})
+	k.Service.IterateServiceBindings(ctx, func(b servicetypes.ServiceBinding) bool {
+		// what a provider has earned and not yet withdrawn is owed to it across a restart
+		add("/irismod.service.Query/EarnedFees", &servicetypes.QueryEarnedFeesRequest{Provider: b.Provider}, "fees earned by provider "+b.Provider)
+		return false
+	})
 	for _, u := range users {
 		add("/irismod.service.Query/WithdrawAddress", &servicetypes.QueryWithdrawAddressRequest{Owner: u.Addr.String()}, "withdraw address of "+u.Name)
 	}
@@ -358,6 +363,11 @@ func roundTripImpl(n *chain.Node, w *world, zeroHeight bool, cnt *c12Counters) (
 		qctx = srcCtx.WithBlockHeight(impCtx.BlockHeight())
 	}
 	for _, q := range catalogue(n, srcCtx, w) {
+		if zeroHeight && q.Path == "/irismod.service.Query/EarnedFees" {
+			// the zero-height preparation has paid the earned fees out (and leaves the tallies behind in the prepared
+			// state, which is not exported)
+			continue
+		}
 		a, err := runQuery(n, qctx, q)
 		if err != nil {
 			return nil, pbt.Failf("harness/query", "%v", err)
@@ -375,6 +385,9 @@ func roundTripImpl(n *chain.Node, w *world, zeroHeight bool, cnt *c12Counters) (
 			}
 			if q.Path == "/irismod.oracle.Query/FeedValue" {
 				sig = "C12/oracle-value-history-collapses"
+			}
+			if q.Path == "/irismod.service.Query/EarnedFees" && !zeroHeight {
+				sig = sigFeeBooks
 			}
 			if pbt.IsKnown(sig) {
 				cnt.skipped[sig]++
@@ -626,6 +639,13 @@ func (m *c12Machine) applyOne(op blockOp) error {
 		if err != nil {
 			return err
 		}
+		if imp != nil && pbt.IsKnown(sigFeeBooks) && serviceFeeBooks(m.n) {
+			// known finding: the imported chain has lost what providers earned and the volumes that price later requests;
+			// from here on fees, balances and with them transaction results legitimately differ. Excluded by
+			// construction: such a state is round-tripped (minus the earned-fee queries) but not continued.
+			m.cnt.skipped[sigFeeBooks+"(not continued)"]++
+			imp = nil
+		}
 		if imp != nil && serviceSchedulePending(m.n) {
 			// A paused request context may still have an entry in the service queues (its next batch, or the expiry of
 			// its last one). The queues are not part of the service genesis, so on the imported chain a later start
@@ -680,6 +700,18 @@ func rawMsgs(in []json.RawMessage) [][]byte {
 		out[i] = r
 	}
 	return out
+}
+
+// sigFeeBooks names the finding that the service genesis carries neither the earned-fee tallies nor the request
+// volumes: an as-is export drops them (the zero-height preparation pays the earned fees out first).
+const sigFeeBooks = "C12/asis-service-fee-books-dropped"
+
+// serviceFeeBooks reports whether the service store holds earned-fee tallies or request volumes.
+func serviceFeeBooks(n *chain.Node) bool {
+	ctx := n.Ctx()
+	a, _ := rawStore(n, ctx, "service", servicetypes.RequestVolumeKey)
+	b, _ := rawStore(n, ctx, "service", servicetypes.EarnedFeesKey)
+	return len(a)+len(b) > 0
 }
 
 // serviceSchedulePending reports whether the service module's new-batch or expiry queue holds an entry.
